@@ -49,16 +49,15 @@ func caller(c *core.Ctx, wrap *core.Fn, wrapperNeg, wrapperKnown bool) {
 		if o == res {
 			return true
 		}
-		if copySource(info, fn.Decl.Body, o) != res {
-			return false
-		}
 		cp0, ok := g0.Find(call)
 		if !ok {
 			return false
 		}
-		for x := o; x != res && x != nil; {
-			d := singleDef(info, fn.Decl.Body, x)
-			if d == nil {
+		for x, i := o, 0; x != res; i++ {
+			// the copy is the only value x ever gets, apart from nil on ways that never
+			// come to read it (say `out, drop = nil, true` followed by `if drop { continue }`)
+			d := copyDef(info, fn.Decl.Body, x)
+			if d == nil || i > 6 {
 				return false
 			}
 			dp, ok := g0.Find(d)
@@ -67,24 +66,14 @@ func caller(c *core.Ctx, wrap *core.Fn, wrapperNeg, wrapperKnown bool) {
 			}
 			xx := x
 			stale := g0.Path(cfgq.Query{From: cp0, After: true,
-				Avoid: func(m ast.Node) bool { return m == dp.Node() || m == cp0.Node() },
-				Target: func(m ast.Node) bool {
-					if m == dp.Node() {
-						return false
-					}
-					reads := false
-					ast.Inspect(m, func(k ast.Node) bool {
-						if id, isId := k.(*ast.Ident); isId && info.Uses[id] == xx {
-							reads = true
-						}
-						return true
-					})
-					return reads
-				}})
+				Avoid:  func(m ast.Node) bool { return m == dp.Node() || m == cp0.Node() },
+				Target: func(m ast.Node) bool { return m != dp.Node() && readsVar(info, m, xx) }})
 			if stale != nil {
 				return false
 			}
-			x = objOf(info, d)
+			if x = objOf(info, d); x == nil {
+				return false
+			}
 		}
 		return true
 	}
@@ -218,6 +207,91 @@ func caller(c *core.Ctx, wrap *core.Fn, wrapperNeg, wrapperKnown bool) {
 		c.Check("R4.caller", key, call.Pos(), onlyIfFalse == wrapperNeg,
 			fmt.Sprintf("the wrapper returns %s and the caller forwards only when that value is %v: commands whose keys pass are dropped and commands with no passing key are forwarded", map[bool]string{true: "!pass", false: "pass"}[wrapperNeg], !onlyIfFalse))
 	}
+}
+
+// copyDef: the one non-nil value the local x is assigned (a plain `x = y` /
+// `x, z = y, w`), every other assignment to x storing nil; nil when x is
+// written in any other way.
+func copyDef(info *types.Info, body ast.Node, x types.Object) ast.Expr {
+	var def ast.Expr
+	bad := false
+	ast.Inspect(body, func(n ast.Node) bool {
+		switch s := n.(type) {
+		case *ast.AssignStmt:
+			for i, l := range s.Lhs {
+				if objOf(info, l) != x {
+					continue
+				}
+				r := core.AssignedTo(s, i)
+				switch {
+				case r == nil || s.Tok != token.ASSIGN && s.Tok != token.DEFINE:
+					bad = true
+				case core.IsNil(info, r):
+				case def != nil:
+					bad = true
+				default:
+					def = r
+				}
+			}
+		case *ast.ValueSpec:
+			for i, nm := range s.Names {
+				if info.Defs[nm] == x && i < len(s.Values) && !core.IsNil(info, s.Values[i]) {
+					if def != nil || len(s.Values) != len(s.Names) {
+						bad = true
+					}
+					def = s.Values[i]
+				}
+			}
+		case *ast.IncDecStmt:
+			if objOf(info, s.X) == x {
+				bad = true
+			}
+		case *ast.RangeStmt:
+			if s.Key != nil && objOf(info, s.Key) == x || s.Value != nil && objOf(info, s.Value) == x {
+				bad = true
+			}
+		case *ast.UnaryExpr:
+			if s.Op == token.AND && objOf(info, s.X) == x {
+				bad = true
+			}
+		}
+		return true
+	})
+	if bad || def == nil || objOf(info, def) == nil {
+		return nil
+	}
+	return def
+}
+
+// readsVar: executing node n reads x (being assigned does not count).
+func readsVar(info *types.Info, n ast.Node, x types.Object) bool {
+	reads := false
+	var walk func(m ast.Node)
+	walk = func(m ast.Node) {
+		ast.Inspect(m, func(k ast.Node) bool {
+			switch y := k.(type) {
+			case *ast.AssignStmt:
+				for _, l := range y.Lhs {
+					if _, plain := ast.Unparen(l).(*ast.Ident); !plain {
+						walk(l)
+					}
+				}
+				for _, r := range y.Rhs {
+					walk(r)
+				}
+				return false
+			case *ast.FuncLit:
+				return true
+			case *ast.Ident:
+				if info.Uses[y] == x {
+					reads = true
+				}
+			}
+			return true
+		})
+	}
+	walk(n)
+	return reads
 }
 
 // elemStores lists the vectors the elements of the local slice e are taken from,
